@@ -27,6 +27,8 @@ func TestVerifSim(t *testing.T) {
 		Props: map[string]simkit.PropFunc{
 			"C23": func(t *testing.T, r *simkit.Run) { runC23(t, r) },
 			"C28": func(t *testing.T, r *simkit.Run) { runWorld(t, r) },
+			// gateway part of C41 (stopping the send pipeline never drops accepted sends)
+			"C41gate": func(t *testing.T, r *simkit.Run) { runWorld(t, r) },
 		},
 		Real: []string{"pkg/gateway/core.Server (onOpen/onData inbound buffering, auth gate, async send executor, DrainSends, Stop, close paths)",
 			"pkg/gateway/protocol/wkproto.Adapter behind a pass-through recording tap", "pkg/protocol/codec (frame codec, all versions 1-6)",
@@ -38,7 +40,9 @@ func TestVerifSim(t *testing.T) {
 		Rule: "One run = one synctest bubble with one real core.Server, 1-6 client connections on a simulated transport, a tape-driven handler. " +
 			"C28 non-trivial = at least one SENDACK written AND (a fault fired OR two sessions had handler calls in flight together OR a drain/stop ran). " +
 			"C23 non-trivial = the decoder was called on a buffer ending inside a frame AND at least three frames reached the handler, or a corruption fault fired; " +
-			"every C23 run also decodes every prefix of a clean and of a mutated stream directly through Adapter.Decode.",
+			"every C23 run also decodes every prefix of a clean and of a mutated stream directly through Adapter.Decode. " +
+			"C41gate: 1-4 send workers with more ordering shards than workers and at most one shard more in use than there are workers, Server.Stop at a tape-chosen step with a release budget of 2-100 ms; " +
+			"non-trivial = Stop ran while at least one admitted SEND had not reached the handler or was parked in it.",
 		Assumptions: []string{"testing/synctest fake clock and quiescence semantics (go1.26.8)",
 			"transport writes never block (as with the asynchronous gnet transport): back-pressure is a bounded outbound buffer that rejects writes",
 			"one OnData call at a time per connection (per-connection actor, as in the gnet transport)",
@@ -55,10 +59,19 @@ var classProp = map[string]string{
 	"sendack-mismatch": "C28", "sendack-missing": "C28", "send-dispatch-order": "C28", "send-dispatched-after-drain": "C28",
 	"drain-returned-with-work-inflight": "C28", "dispatch-after-drain-complete": "C28", "write-not-through": "C28", "send-unanswered": "C28",
 	"outbound-garbled": "C28", "drain-not-completing": "C28", "push-order": "C28",
+	"send-admitted-after-stop": "C41gate", "send-dispatched-after-stop": "C41gate", "admitted-send-never-dispatched": "C41gate",
+	"dispatch-without-admission": "C41gate",
 }
+
+// sharedClass: classes of the C28 oracle that are also C41 clauses at the gateway
+// (exactly-once dispatch of what was admitted).
+var sharedC41 = map[string]bool{"send-dispatch-order": true, "handler-frames-mismatch": true}
 
 func (q *gworld) fail(class, sig, detail string, facts map[string]any) {
 	p := classProp[class]
+	if q.r.Property == "C41gate" && sharedC41[class] {
+		p = "C41gate" // a SEND dispatched twice, out of order or altered is not "exactly once"
+	}
 	if p != "*" && p != q.r.Property {
 		q.r.Probe("run_ended_by_other_property:" + class)
 		if !q.tainted {
@@ -107,9 +120,57 @@ type cfg struct {
 	BigFrames    bool
 	FinalDrain   bool
 	SendBias     int
+	Saturable    bool // more ordering shards in use than send workers (C41gate only)
+	StopHold     bool // handlers stay parked while Stop waits (slower than any release budget)
+}
+
+// drawCfg41 draws the world of the C41 gateway part: the send worker pool may be
+// saturated, but by at most one shard. With one waiting shard the mailbox's
+// 10 us pool re-tries have nobody to tie with, so the run stays reproducible.
+func drawCfg41(r *simkit.Run) cfg {
+	tp := r.Tape
+	c := cfg{}
+	c.Workers = 1 + tp.Weighted([]int{2, 5, 3, 2})
+	c.Sessions = 1 + tp.Intn(c.Workers+1) // <= workers+1 sessions, one ordering shard each
+	if c.Workers == 1 {
+		c.Sessions = 1 + tp.Intn(4) // a single shard: any number of sessions
+	}
+	if tp.Intn(4) != 0 && c.Workers > 1 {
+		c.Sessions = c.Workers + 1
+	}
+	c.QueueCap = []int{8, 16, 32}[tp.Intn(3)] // >= 8 shards for 2-4 workers
+	c.Saturable = c.Workers > 1 && c.Sessions > c.Workers
+	c.HandlerMode = []int{0, 2, 1}[tp.Weighted([]int{3, 2, 1})]
+	c.Auth = c.HandlerMode == 2 || tp.Intn(2) == 0 // the real handler answers at once without a uid
+	c.SetUID = true
+	c.BatchWait = []time.Duration{time.Millisecond, -1, 5 * time.Millisecond}[tp.Weighted([]int{3, 2, 1})]
+	c.BatchRecords = []int{128, 1, 2, 8}[tp.Intn(4)]
+	c.BatchBytes = 512 * 1024
+	c.MaxInbound, c.MaxOutbound = 1<<20, 1<<20
+	c.CloseOnErr = true
+	c.IdleTimeout = 3 * time.Minute
+	c.ReleaseTO = []time.Duration{100 * time.Millisecond, 2 * time.Millisecond, 20 * time.Millisecond}[tp.Intn(3)]
+	c.ParkOpen = tp.Intn(6) == 0
+	c.NoFaults = tp.Intn(4) == 0
+	if !c.NoFaults {
+		c.FStop = tp.Intn(8) != 0
+		c.StopHold = tp.Weighted([]int{1, 2}) == 1
+		c.FDrain = tp.Intn(4) == 0
+		c.FReset = tp.Intn(4) == 0
+		c.FKick = tp.Intn(5) == 0
+		c.FHandlerFail = tp.Intn(3) == 0
+	}
+	c.SplitBias = tp.Weighted([]int{4, 2, 1})
+	c.Frames = 3 + tp.Intn(8)
+	c.Burst = 1 + tp.Intn(4)
+	c.SendBias = 10
+	return c
 }
 
 func drawCfg(r *simkit.Run) cfg {
+	if r.Property == "C41gate" {
+		return drawCfg41(r)
+	}
 	tp := r.Tape
 	c28 := r.Property == "C28"
 	c := cfg{}
@@ -177,7 +238,7 @@ func drawCfg(r *simkit.Run) cfg {
 	return c
 }
 
-func (c cfg) overloadPossible() bool { return c.Workers == 2 && c.Sessions > 2 }
+func (c cfg) overloadPossible() bool { return c.Saturable || (c.Workers == 2 && c.Sessions > 2) }
 
 // ---- run -------------------------------------------------------------------------
 
@@ -220,6 +281,11 @@ type engine struct {
 	handlerSeen int
 	kills       int
 	quiet       bool
+
+	c41          bool // the run decides the gateway part of C41
+	stopStep     int  // step of the Server.Stop call (0 = none)
+	stopWithWork bool // Stop began while an admitted SEND was queued or parked in the handler
+	leakExpected bool // a recorded violation explains goroutines that can never finish
 }
 
 func runWorld(t *testing.T, r *simkit.Run) {
@@ -229,10 +295,23 @@ func runWorld(t *testing.T, r *simkit.Run) {
 		"max_inbound": c.MaxInbound, "max_outbound": c.MaxOutbound, "close_on_handler_error": c.CloseOnErr, "nofaults": c.NoFaults,
 		"corrupt": c.FCorrupt, "reset": c.FReset, "stall": c.FStall, "handler_fail": c.FHandlerFail, "drain": c.FDrain, "stop": c.FStop, "kick": c.FKick,
 		"eager": c.FEager, "push": c.Push, "split": c.SplitBias, "frames": c.Frames, "burst": c.Burst, "park_frames": c.ParkFrames, "park_open": c.ParkOpen,
-		"idle_ms": c.IdleTimeout.Milliseconds(), "final_drain": c.FinalDrain}
+		"idle_ms": c.IdleTimeout.Milliseconds(), "final_drain": c.FinalDrain, "release_ms": c.ReleaseTO.Milliseconds(), "saturable": c.Saturable, "stop_hold": c.StopHold}
+	defer dumpTrace(r)
+	defer func() {
+		// Work the gateway discarded leaves its own drain goroutine waiting for
+		// ever; the bubble then cannot end. When the discarded work was already
+		// reported as the violation, that is its consequence, not harness trouble.
+		if p := recover(); p != nil {
+			if r.Failed() && strings.Contains(fmt.Sprint(p), "deadlock") {
+				r.Probe("goroutines_left_blocked_by_the_violation")
+				return
+			}
+			panic(p)
+		}
+	}()
 	simkit.Bubble(t, r, func() {
 		q := &gworld{r: r, w: simkit.NewWorld(r), cfg: c, codec: codec.New(), listeners: map[string]*simListener{}, conns: map[int]*simConn{}}
-		e := &engine{q: q}
+		e := &engine{q: q, c41: r.Property == "C41gate"}
 		defer e.teardown()
 		if !e.setup() {
 			return
@@ -255,13 +334,14 @@ func runWorld(t *testing.T, r *simkit.Run) {
 		for _, v := range r.Faults {
 			faults += v
 		}
-		if r.Property == "C28" {
+		if e.c41 {
+			r.Nontrivial = e.stopWithWork
+		} else if r.Property == "C28" {
 			r.Nontrivial = e.acksTotal > 0 && (faults > 0 || e.overlapSeen || e.drainStep > 0)
 		} else {
 			r.Nontrivial = (e.splitSeen && e.handlerSeen >= 3) || r.Faults["corrupt_bitflip"]+r.Faults["corrupt_truncate"]+r.Faults["corrupt_oversize_length"]+r.Faults["corrupt_garbage"] > 0
 		}
 	})
-	dumpTrace(r)
 }
 
 func (e *engine) setup() bool {
@@ -400,6 +480,9 @@ func (e *engine) pendingWork() bool {
 	for _, cl := range q.clients {
 		if cl.conn.busy.Load() {
 			return true
+		}
+		if e.c41 && cl.admitted > cl.nHSends {
+			return true // admitted work must reach the handler whatever happened to the session
 		}
 		if cl.closed {
 			continue
